@@ -115,6 +115,35 @@ def run(prop, tier):
                     viol = {"what": "numpy export has shape %r, expected (channels, samples) = %r" % (arr.shape, (ch, n))}
                 if viol is None and not np.array_equal(np.asarray(reg), arr):
                     viol = {"what": "np.asarray(region) differs from region.numpy()"}
+        # --- beyond a mebibyte: skip / max_read over multi-channel audio, wav files whose frame size does not divide 2^20
+        for (rate_, w_, ch_, secs) in ((16000, 2, 2, 25.0), (16000, 2, 3, 15.0), (8000, 1, 5, 60.0)):
+            bps_ = w_ * ch_
+            nsmp = int(rate_ * secs)
+            big = bytes((i * 13 + (i >> 10)) % 253 for i in range(nsmp * bps_))
+            reg = au.AudioRegion(big, rate_, w_, ch_)
+            pw = os.path.join(tmpd, "big_%d_%d.wav" % (w_, ch_)); pr = os.path.join(tmpd, "big_%d_%d.raw" % (w_, ch_))
+            reg.save(pw); reg.save(pr)
+            evals += 2
+            with _wave.open(pw, "rb") as f:
+                on_disk = f.readframes(f.getnframes()); hdr = (f.getframerate(), f.getsampwidth(), f.getnchannels())
+            if viol is None and (on_disk != big or hdr != (rate_, w_, ch_) or open(pr, "rb").read() != big):
+                viol = {"what": "a %d-byte region (sw=%d, ch=%d) saved as wav holds %d bytes of audio (header %r), as raw %d bytes: not the region's bytes" % (
+                    len(big), w_, ch_, len(on_disk), hdr, os.path.getsize(pr)), "bytes": len(big), "format(sr,sw,ch)": [rate_, w_, ch_]}
+            for (sk, mr_) in ((secs * 0.8, 2.0), (secs * 0.5, None), (0.0, secs - 1.0)):
+                for name, src, kw in (("bytes", big, dict(sr=rate_, sw=w_, ch=ch_)), ("wav eager", pw, {}), ("wav lazy", pw, dict(large_file=True)),
+                                      ("raw lazy", pr, dict(sr=rate_, sw=w_, ch=ch_, large_file=True))):
+                    evals += 1
+                    try:
+                        got = au.load(src, skip=sk, max_read=mr_, **kw).data
+                    except Exception as x:
+                        got = "raised %s" % type(x).__name__
+                    a0 = round(sk * rate_); b0 = nsmp if mr_ is None else a0 + round(mr_ * rate_)
+                    exp = big[a0 * bps_:b0 * bps_]
+                    if viol is None and got != exp:
+                        viol = {"what": "load(%s, skip=%r, max_read=%r) of %d samples (sw=%d, ch=%d) %s, slicing [%d:%d) gives %d samples" % (
+                            name, sk, mr_, nsmp, w_, ch_, got if isinstance(got, str) else "returned %d samples%s" % (len(got) // bps_, "" if len(got) != len(exp) else " with other content"),
+                            a0, b0, len(exp) // bps_), "skip": sk, "max_read": mr_, "format(sr,sw,ch)": [rate_, w_, ch_], "container": name}
+            del reg
         # --- placeholders and exists_ok
         regs = list(au.split(bytes([0] * 40 + [100] * 60 + [0] * 40 + [90] * 30), min_dur=0.2, max_dur=3, max_silence=0.1, aw=0.1, sr=100, sw=1, ch=1, eth=30))
         for k, reg in enumerate(regs):
